@@ -28,14 +28,28 @@ import (
 
 type refResult struct {
 	Tree        *model.Node
-	Fail        []string        // reasons why the merge must fail
-	LeafFail    []leafConflict  // the leaf conflicts among them
+	Fail        []failReason    // reasons why the merge must fail
+	LeafFail    []leafConflict  // leaves set in both with different values (reasons only without overwrite)
+	LeafOnlyA   map[string]bool // paths of leaves set in a only
 	Unspecified []string        // places where the statement gives no verdict
 	Classes     map[string]bool // what kinds of overlap the pair has
 	LLBoth      map[string]bool // paths of leaf-lists concatenated from both sides
 	ULBoth      map[string]bool // paths of unkeyed lists concatenated from both sides
 	Overlap     int             // list entries (keyed / ordered) present in both, + unkeyed lists populated in both
 	BothLeaves  int
+}
+
+// failReason.Kind: leaf | binleaf (non-union binary leaf) | ll | ul | ord | ord-bfirstnew (ordered lists
+// overlap, not mergeable, and b's first key is not in a)
+type failReason struct {
+	Kind, Path, Msg string
+	F               *model.FieldInfo
+}
+
+func (f failReason) String() string { return f.Path + ": " + f.Msg }
+
+func (r *refResult) fail(kind, path string, f *model.FieldInfo, format string, x ...interface{}) {
+	r.Fail = append(r.Fail, failReason{Kind: kind, Path: path, F: f, Msg: fmt.Sprintf(format, x...)})
 }
 
 type leafConflict struct {
@@ -48,7 +62,7 @@ func (r *refResult) ok() bool        { return len(r.Fail) == 0 }
 func (r *refResult) specified() bool { return len(r.Unspecified) == 0 }
 
 func refMerge(a, b *model.Node, overwrite bool) *refResult {
-	r := &refResult{Classes: map[string]bool{}, LLBoth: map[string]bool{}, ULBoth: map[string]bool{}}
+	r := &refResult{Classes: map[string]bool{}, LLBoth: map[string]bool{}, ULBoth: map[string]bool{}, LeafOnlyA: map[string]bool{}}
 	r.Tree = r.node("", a, b, overwrite)
 	r.Tree.Normalize()
 	return r
@@ -139,16 +153,19 @@ func (r *refResult) node(p string, a, b *model.Node, ow bool) *model.Node {
 					continue
 				}
 				r.Classes["pair:leaf-conflict"] = true
+				kind := "leaf"
 				if va.K == model.KBin && vb.K == model.KBin && !f.ElemUnion {
 					r.Classes["pair:binary-leaf-conflict"] = true
+					kind = "binleaf"
 				}
 				r.LeafFail = append(r.LeafFail, leafConflict{Path: fp, F: f, A: va, B: vb})
 				if !ow {
-					r.Fail = append(r.Fail, fmt.Sprintf("%s: leaf set in both with different values a=%s b=%s", fp, va, vb))
+					r.fail(kind, fp, f, "leaf set in both with different values a=%s b=%s", va, vb)
 				}
 				out.Leaf[name] = vb // b wins (only meaningful with overwrite)
 			case oka:
 				out.Leaf[name] = va
+				r.LeafOnlyA[fp] = true
 			case okb:
 				out.Leaf[name] = vb
 			}
@@ -168,7 +185,7 @@ func (r *refResult) node(p string, a, b *model.Node, ow bool) *model.Node {
 					r.Unspecified = append(r.Unspecified, fp+": leaf-lists hold the same values in a different order")
 					out.LL[name] = append([]model.Val(nil), la...)
 				default:
-					r.Fail = append(r.Fail, fmt.Sprintf("%s: leaf-lists overlap but are not equal a=%v b=%v", fp, la, lb))
+					r.fail("ll", fp, f, "leaf-lists overlap but are not equal a=%v b=%v", la, lb)
 				}
 			case len(la) > 0:
 				out.LL[name] = append([]model.Val(nil), la...)
@@ -272,10 +289,12 @@ func (r *refResult) node(p string, a, b *model.Node, ow bool) *model.Node {
 				} else {
 					r.Classes["pair:ord-partial-overlap"] = true
 				}
+				kind := "ord"
 				if !hasStr(ka, kb[0]) {
 					r.Classes["pair:ord-overlap-b-first-key-new"] = true
+					kind = "ord-bfirstnew"
 				}
-				r.Fail = append(r.Fail, fmt.Sprintf("%s: ordered lists overlap and b's keys %v are not a same-order subset of a's %v", fp, kb, ka))
+				r.fail(kind, fp, f, "ordered lists overlap and b's keys %v are not a same-order subset of a's %v", kb, ka)
 			}
 		case model.FUList:
 			la, lb := a.UList[name], b.UList[name]
@@ -293,7 +312,7 @@ func (r *refResult) node(p string, a, b *model.Node, ow bool) *model.Node {
 				case "permuted":
 					r.Unspecified = append(r.Unspecified, fp+": unkeyed lists hold the same elements in a different order")
 				default:
-					r.Fail = append(r.Fail, fmt.Sprintf("%s: unkeyed lists overlap but are not equal (%d and %d elements)", fp, len(la), len(lb)))
+					r.fail("ul", fp, f, "unkeyed lists overlap but are not equal (%d and %d elements)", len(la), len(lb))
 				}
 			case len(la) > 0:
 				out.UList[name] = cloneNodes(la)
@@ -348,10 +367,12 @@ func cloneNodes(l []*model.Node) []*model.Node {
 // splitter derives a pair (a, b) from one base tree by random split / overlay. With compat set only
 // roles that keep the pair mergeable are drawn (used by C04, which needs successful merges).
 type splitter struct {
-	rt     *rapid.T
-	v      *model.Variant
-	compat bool
-	o      model.GenOpts
+	rt       *rapid.T
+	v        *model.Variant
+	compat   bool // no conflicting roles
+	disjoint bool // nothing goes to both sides
+	rare     bool // conflicting roles are rare (so that single reasons decide the verdict)
+	o        model.GenOpts
 }
 
 func (s *splitter) pick(label string, weights ...int) int {
@@ -369,16 +390,35 @@ func (s *splitter) pick(label string, weights ...int) int {
 	return len(weights) - 1
 }
 
-// w returns weight x unless compat forbids conflicting roles.
+// cw returns the weight of a conflicting role.
 func (s *splitter) cw(x int) int {
-	if s.compat {
+	switch {
+	case s.compat || s.disjoint:
+		return 0
+	case s.rare:
+		return 1
+	}
+	return x
+}
+
+// lw returns the weight of a conflicting role of a whole list / leaf-list (few per tree, so not made rare).
+func (s *splitter) lw(x int) int {
+	if s.compat || s.disjoint {
+		return 0
+	}
+	return x
+}
+
+// bw returns the weight of a role that puts the same data on both sides.
+func (s *splitter) bw(x int) int {
+	if s.disjoint {
 		return 0
 	}
 	return x
 }
 
 func (s *splitter) split(m *model.Node) (a, b *model.Node) {
-	a, b = s.node(m, nil)
+	a, b = s.node(m, nil, 0)
 	return a.Normalize(), b.Normalize()
 }
 
@@ -405,7 +445,7 @@ func reversedVals(l []model.Val) []model.Val {
 	return out
 }
 
-func (s *splitter) node(m *model.Node, keyLeaves map[string]bool) (*model.Node, *model.Node) {
+func (s *splitter) node(m *model.Node, keyLeaves map[string]bool, depth int) (*model.Node, *model.Node) {
 	a, b := model.NewNode(m.SI), model.NewNode(m.SI)
 	for _, f := range m.SI.Fields {
 		name := f.Name
@@ -419,7 +459,7 @@ func (s *splitter) node(m *model.Node, keyLeaves map[string]bool) (*model.Node, 
 				a.Leaf[name], b.Leaf[name] = cloneVal(v), cloneVal(v)
 				continue
 			}
-			switch s.pick("leaf", 30, 30, 25, s.cw(15)) {
+			switch s.pick("leaf", 30, 30, s.bw(25), s.cw(15)) {
 			case 0:
 				a.Leaf[name] = cloneVal(v)
 			case 1:
@@ -440,11 +480,11 @@ func (s *splitter) node(m *model.Node, keyLeaves map[string]bool) (*model.Node, 
 			if n == 0 {
 				continue
 			}
-			wSplit, wPart, wPerm := 15, s.cw(12), s.cw(5)
+			wSplit, wPart, wPerm := 15, s.lw(14), s.lw(5)
 			if n < 2 {
 				wSplit, wPart, wPerm = 0, 0, 0
 			}
-			switch s.pick("ll", 22, 22, 18, wSplit, wPart, wPerm) {
+			switch s.pick("ll", 22, 22, s.bw(18), wSplit, wPart, wPerm) {
 			case 0:
 				a.LL[name] = cloneValList(l)
 			case 1:
@@ -466,9 +506,13 @@ func (s *splitter) node(m *model.Node, keyLeaves map[string]bool) (*model.Node, 
 			if !ok {
 				continue
 			}
-			switch s.pick("cont", 60, 20, 20) {
+			wOne := 12
+			if depth == 0 {
+				wOne = 0
+			}
+			switch s.pick("cont", 76, wOne, wOne) {
 			case 0:
-				a.Cont[name], b.Cont[name] = s.node(c, nil)
+				a.Cont[name], b.Cont[name] = s.node(c, nil, depth+1)
 			case 1:
 				a.Cont[name] = c.Clone()
 			case 2:
@@ -476,13 +520,17 @@ func (s *splitter) node(m *model.Node, keyLeaves map[string]bool) (*model.Node, 
 			}
 		case model.FList:
 			for _, e := range m.List[name] {
-				switch s.pick("entry", 30, 30, 40) {
+				wBoth := s.bw(40)
+				if wrapperUnionKey(f) {
+					wBoth = 0 // the Go key is a pointer: two builds never hold "the same" entry
+				}
+				switch s.pick("entry", 30, 30, wBoth) {
 				case 0:
 					a.List[name] = append(a.List[name], cloneEntry(e))
 				case 1:
 					b.List[name] = append(b.List[name], cloneEntry(e))
 				case 2:
-					ea, eb := s.entry(f, e)
+					ea, eb := s.entry(f, e, depth)
 					a.List[name] = append(a.List[name], ea)
 					b.List[name] = append(b.List[name], eb)
 				}
@@ -495,7 +543,7 @@ func (s *splitter) node(m *model.Node, keyLeaves map[string]bool) (*model.Node, 
 			}
 			both := func(es []*model.Entry) (ra, rb []*model.Entry) {
 				for _, e := range es {
-					ea, eb := s.entry(f, e)
+					ea, eb := s.entry(f, e, depth)
 					ra, rb = append(ra, ea), append(rb, eb)
 				}
 				return
@@ -510,7 +558,11 @@ func (s *splitter) node(m *model.Node, keyLeaves map[string]bool) (*model.Node, 
 			if n < 2 {
 				wMulti = 0
 			}
-			switch s.pick("ord", 10, 10, 14, 14, 16*wMulti, 10*wMulti, s.cw(10)*wMulti, s.cw(10)*wMulti, s.cw(8)*wMulti) {
+			wGuard := 10
+			if s.compat {
+				wGuard = 0
+			}
+			switch s.pick("ord", 10, 10, s.bw(14), 14, s.bw(16)*wMulti, s.bw(wGuard)*wMulti, s.lw(12)*wMulti, s.lw(16)*wMulti, s.lw(14)*wMulti) {
 			case 0: // a only
 				a.List[name] = clones(l)
 			case 1: // b only
@@ -532,7 +584,7 @@ func (s *splitter) node(m *model.Node, keyLeaves map[string]bool) (*model.Node, 
 						a.List[name] = append(a.List[name], cloneEntry(e))
 						continue
 					}
-					ea, eb := s.entry(f, e)
+					ea, eb := s.entry(f, e, depth)
 					a.List[name], b.List[name] = append(a.List[name], ea), append(b.List[name], eb)
 				}
 			case 5: // a a strict same-order subset of b (no verdict)
@@ -542,7 +594,7 @@ func (s *splitter) node(m *model.Node, keyLeaves map[string]bool) (*model.Node, 
 						b.List[name] = append(b.List[name], cloneEntry(e))
 						continue
 					}
-					ea, eb := s.entry(f, e)
+					ea, eb := s.entry(f, e, depth)
 					a.List[name], b.List[name] = append(a.List[name], ea), append(b.List[name], eb)
 				}
 			case 6: // permutation: same keys, b reversed
@@ -566,11 +618,11 @@ func (s *splitter) node(m *model.Node, keyLeaves map[string]bool) (*model.Node, 
 			if n == 0 {
 				continue
 			}
-			wSplit, wPart, wPerm := 15, s.cw(12), s.cw(6)
+			wSplit, wPart, wPerm := 15, s.lw(14), s.lw(6)
 			if n < 2 {
 				wSplit, wPart, wPerm = 0, 0, 0
 			}
-			switch s.pick("ul", 20, 20, 20, wSplit, wPart, wPerm) {
+			switch s.pick("ul", 20, 20, s.bw(20), wSplit, wPart, wPerm) {
 			case 0:
 				a.UList[name] = cloneNodes(l)
 			case 1:
@@ -601,11 +653,11 @@ func cloneEntry(e *model.Entry) *model.Entry {
 }
 
 // entry splits one list entry that goes to both sides: the key leaves stay on both sides.
-func (s *splitter) entry(f *model.FieldInfo, e *model.Entry) (*model.Entry, *model.Entry) {
+func (s *splitter) entry(f *model.FieldInfo, e *model.Entry, depth int) (*model.Entry, *model.Entry) {
 	kl := map[string]bool{}
 	for _, kf := range f.KeyFields {
 		kl[kf.Name] = true
 	}
-	na, nb := s.node(e.N, kl)
+	na, nb := s.node(e.N, kl, depth+1)
 	return &model.Entry{Key: cloneValList(e.Key), N: na}, &model.Entry{Key: cloneValList(e.Key), N: nb}
 }
